@@ -175,6 +175,25 @@ func (r *Run) ConsensusFuncs() map[*ssa.Function]bool {
 	return r.consensus
 }
 
+// RequireResolvedStores makes the run undecided when consensus-reachable module
+// code accesses a store whose key (module) could not be resolved: the
+// capability, prefix and flow rules would otherwise silently not see that access.
+func (r *Run) RequireResolvedStores() {
+	n := 0
+	for _, f := range r.P.SortedFuncs(r.ConsensusFuncs()) {
+		for _, e := range r.Eff.Own[f] {
+			if !strings.HasPrefix(e.Kind, "store.") {
+				continue
+			}
+			n++
+			if e.Module == "?" {
+				r.Undecide("E1-resolve", Key("E1-resolve", r.P.Name(f)), r.P.Pos(e.Instr.Pos()), "store access whose store key cannot be traced to a keeper field (not ctx.KVStore(k.<field>), prefix.NewStore over it, or a helper returning one): the effect rules cannot attribute it to a module")
+			}
+		}
+	}
+	r.Counters["consensus_store_accesses"] = n
+}
+
 // ---------------------------------------------------------------- findings
 
 func LoadFindings(path string) ([]Finding, error) {
